@@ -596,6 +596,26 @@ def _step_to_event(step: dict) -> dict:
         raise ValueError(f"Unknown next step type: {step_type}")
 
 
+def apply_history_alterations(history: List[dict]) -> List[dict]:
+    """Returns the history as the flows see it, i.e., without the turns hidden by 'hide_prev_turn'."""
+    actual_history: List[dict] = []
+    for event in history:
+        if event["type"] == "hide_prev_turn":
+            # we look up the last `UtteranceUserActionFinished` event and remove everything after
+            end = len(actual_history) - 1
+            while (
+                end > 0 and actual_history[end]["type"] != "UtteranceUserActionFinished"
+            ):
+                end -= 1
+
+            assert actual_history[end]["type"] == "UtteranceUserActionFinished"
+            actual_history = actual_history[0:end]
+        else:
+            actual_history.append(event)
+
+    return actual_history
+
+
 def compute_next_steps(
     history: List[dict],
     flow_configs: Dict[str, FlowConfig],
@@ -618,20 +638,7 @@ def compute_next_steps(
     )
 
     # First, we process the history and apply any alterations e.g. 'hide_prev_turn'
-    actual_history = []
-    for event in history:
-        if event["type"] == "hide_prev_turn":
-            # we look up the last `UtteranceUserActionFinished` event and remove everything after
-            end = len(actual_history) - 1
-            while (
-                end > 0 and actual_history[end]["type"] != "UtteranceUserActionFinished"
-            ):
-                end -= 1
-
-            assert actual_history[end]["type"] == "UtteranceUserActionFinished"
-            actual_history = actual_history[0:end]
-        else:
-            actual_history.append(event)
+    actual_history = apply_history_alterations(history)
 
     steps_history = []
     for event in actual_history:
